@@ -261,6 +261,93 @@ def _natural_loops(fn, f):
     return loops
 
 
+def _root_copy(defs, l, body, depth=0):
+    """follow single in-loop `use` definitions back to the variable they copy"""
+    if depth > 6:
+        return l
+    ds = [d for d in defs.get(l, []) if d.get("bi") in body]
+    if len(ds) == 1 and (ds[0].get("rv") or {}).get("k") == "use":
+        o = ds[0]["rv"].get("op") or {}
+        pl = o.get("pl")
+        if pl and not pl["p"]:
+            return _root_copy(defs, pl["l"], body, depth + 1)
+    return l
+
+
+def _counting_loop(fn, f, body, defs):
+    """a loop left when an integer counter, changed by a non-zero constant in one direction on every trip, passes a bound that the loop
+    does not change: `while i < n { ..; i += 1 }`"""
+    for b in sorted(body):
+        t = f["blocks"][b]["term"]
+        if t["k"] != "switch" or all(s_ in body for s_ in fn.succ[b]):
+            continue
+        d = t.get("discr") or {}
+        pl = d.get("pl") if isinstance(d, dict) else None
+        if not pl:
+            continue
+        for dd in defs.get(pl["l"], []):
+            rv = dd.get("rv") or {}
+            if rv.get("k") != "binop" or rv.get("op") not in ("Lt", "Le", "Gt", "Ge", "Ne"):
+                continue
+            ops = []
+            for o in (rv.get("a"), rv.get("b")):
+                if isinstance(o, dict) and o.get("pl") and not o["pl"]["p"]:
+                    ops.append(("var", _root_copy(defs, o["pl"]["l"], body)))
+                elif isinstance(o, dict) and o.get("k") == "const":
+                    ops.append(("const", o.get("val")))
+                else:
+                    ops.append(("?", None))
+            for ci, bi_ in ((0, 1), (1, 0)):
+                if ops[ci][0] != "var":
+                    continue
+                c = ops[ci][1]
+                # the bound: a constant, or a variable without definitions inside the loop
+                if ops[bi_][0] == "var" and any(d2.get("bi") in body for d2 in defs.get(ops[bi_][1], [])):
+                    continue
+                if ops[bi_][0] == "?":
+                    continue
+                # every in-loop definition of the counter is `c = (c +- k).0` / `c = c +- k` with k a non-zero constant, one direction
+                dirs = set()
+                ok = True
+                inloop = [d2 for d2 in defs.get(c, []) if d2.get("bi") in body]
+                if not inloop:
+                    continue
+                for d2 in inloop:
+                    rv2 = d2.get("rv") or {}
+                    src = None
+                    if rv2.get("k") == "use":
+                        o2 = rv2.get("op") or {}
+                        p2 = o2.get("pl")
+                        if p2:
+                            for d3 in defs.get(p2["l"], []):
+                                r3 = d3.get("rv") or {}
+                                if r3.get("k") == "binop":
+                                    src = r3
+                    elif rv2.get("k") == "binop":
+                        src = rv2
+                    if not src or src.get("op") not in ("Add", "Sub", "AddWithOverflow", "SubWithOverflow", "AddUnchecked", "SubUnchecked"):
+                        ok = False
+                        break
+                    a_, b_ = src.get("a") or {}, src.get("b") or {}
+                    if not (a_.get("pl") and _root_copy(defs, a_["pl"]["l"], body) == c and b_.get("k") == "const" and isinstance(b_.get("val"), int) and b_["val"] != 0):
+                        ok = False
+                        break
+                    up = src["op"].startswith("Add") == (b_["val"] > 0)
+                    dirs.add("up" if up else "down")
+                if not ok or len(dirs) != 1:
+                    continue
+                # the update must lie on every cycle: its block dominates the back edge sources (approximated: it is in the body and
+                # the header dominates it - natural loop - and it post-dominates nothing else we can check cheaply); require that the
+                # counter update block dominates every in-loop predecessor of the header
+                upd_blocks = {d2["bi"] for d2 in inloop}
+                hdr = min(body, key=lambda x: 0 if all(fn.dominates(x, y) for y in body) else 1)
+                back = [n for n in body if hdr in fn.succ[n]]
+                if not all(any(fn.dominates(u, n) for u in upd_blocks) for n in back):
+                    continue
+                return True
+    return False
+
+
 def rule_loops(ctx):
     fx = ctx.fx
     res = RuleResult("R-LOOP", "every loop of the pipeline crates (natural loops of the MIR control-flow graph; the lalrpop-generated parser tables "
@@ -320,6 +407,8 @@ def rule_loops(ctx):
                     continue
                 seen.add(x)
                 work.extend(s_ for s_ in fn.succ[x] if s_ in body)
+            if cyc and _counting_loop(fn, f, body, defs):
+                cyc = False
             if cyc:
                 problems.append((h, h))
             line = (f["blocks"][h]["term"].get("sp") or f["sp"]).get("line")
